@@ -160,7 +160,7 @@ fn block_literals(text: &str) -> Vec<(usize, usize)> {
                 }
             }
             b'"' => {
-                if text[i..].starts_with("\"\"\"") {
+                if b[i..].starts_with(b"\"\"\"") {
                     let start = i;
                     i += 3;
                     loop {
@@ -168,9 +168,9 @@ fn block_literals(text: &str) -> Vec<(usize, usize)> {
                             out.push((start, b.len()));
                             break;
                         }
-                        if text[i..].starts_with("\\\"\"\"") {
+                        if b[i..].starts_with(b"\\\"\"\"") {
                             i += 4;
-                        } else if text[i..].starts_with("\"\"\"") {
+                        } else if b[i..].starts_with(b"\"\"\"") {
                             i += 3;
                             out.push((start, i));
                             break;
@@ -338,13 +338,18 @@ impl<'a> Ctx<'a> {
     }
 
     // ---------------------------------------------------------------- string literals
-    fn string_roundtrips(&mut self, s: &str) -> bool {
+    /// does `s` still fail the same way: printed in the same form (block / quoted) and not denoting `s`
+    fn string_fails_like(&mut self, s: &str, block: bool) -> bool {
         let Ok(lit) = real_print_string(s) else { return false };
+        if lit.starts_with("\"\"\"") != block {
+            return false;
+        }
         let a = self.drv.one(&Sexp::call("gql.decode-string", vec![Sexp::str(lit.as_str())]));
-        ok_str(&a).as_deref() == Some(s)
+        ok_str(&a).as_deref() != Some(s)
     }
 
     fn minimise_string(&mut self, s: &str) -> String {
+        let block = real_print_string(s).map(|l| l.starts_with("\"\"\"")).unwrap_or(false);
         let mut cur: Vec<char> = s.chars().collect();
         let mut progress = true;
         while progress {
@@ -354,7 +359,7 @@ impl<'a> Ctx<'a> {
                 let mut t = cur.clone();
                 t.remove(i);
                 let ts: String = t.iter().collect();
-                if !self.string_roundtrips(&ts) {
+                if self.string_fails_like(&ts, block) {
                     cur = t;
                     progress = true;
                 } else {
@@ -487,8 +492,9 @@ impl<'a> Ctx<'a> {
             match parsed {
                 Err((msg, line)) => {
                     let l = text.lines().nth(line).unwrap_or("");
-                    let words: Vec<&str> = l.split(|c: char| !c.is_ascii_alphabetic()).filter(|w| !w.is_empty()).take(2).collect();
-                    let ctx = if l.trim_start().starts_with('"') { "string".to_string() } else if words.is_empty() { "other".into() } else { words.join("-") };
+                    const KW: [&str; 16] = ["extend", "schema", "union", "type", "interface", "enum", "input", "scalar", "directive", "query", "mutation", "subscription", "fragment", "import", "implements", "on"];
+                    let words: Vec<&str> = l.split(|c: char| !c.is_ascii_alphabetic()).filter(|w| KW.contains(w)).take(2).collect();
+                    let ctx = if l.contains('"') { "near-string-literal".to_string() } else if words.is_empty() { "other".into() } else { words.join("-") };
                     let ctx = if line == usize::MAX { "panic".to_string() } else { ctx };
                     self.rep.fail(
                         "O",
